@@ -214,6 +214,13 @@ func Files() []File {
 			Nested: []M{{Name: "Item", Fields: []F{{Name: "id", Num: 1, Kind: "int32", Card: "req"}}}}},
 		{Name: "Other", Fields: []F{{Name: "must", Num: 1, Kind: "bool", Card: "req"}}},
 	}, nil, nil)
+	// a message type imported from another .proto file of the same project that is not being generated in this run and whose
+	// go_package names the package differently from its directory (".../api/v1;apiv1")
+	atom("a3localimport", "proto3", []string{"local-import"}, nil, []M{
+		{Name: "Invoice", Fields: []F{{Name: "id", Num: 1, Kind: "string", Card: "imp"}, {Name: "total", Num: 2, Kind: "message", Card: "imp", Type: "@dep.Money"},
+			{Name: "lines", Num: 3, Kind: "message", Card: "rep", Type: "@dep.Money"}, {Name: "by_name", Num: 4, Kind: "map", MapKey: "string", MapVal: "message", MapType: "@dep.Money"},
+			{Name: "cur", Num: 5, Kind: "enum", Card: "imp", Type: "@dep.Currency"}}},
+	}, nil, nil)
 	// upper-case letters in the .proto file name / directory: only the message part of a per-message file name is lower-cased
 	atom("a3UpperCase", "proto3", []string{"upper-case-file-name"}, nil, []M{
 		{Name: "SensorEvent", Fields: []F{{Name: "id", Num: 1, Kind: "int32", Card: "imp"}, {Name: "batch", Num: 2, Kind: "message", Card: "imp", Type: "Batch"}}},
